@@ -33,7 +33,8 @@ RULE = ('one run = one TBRMatchedMarkets object over a seeded panel (3-7 '
         'searches and retrievals are interleaved by the seeded schedule; '
         'fault kinds (separate batch): rng_jump, reject, abandon, interrupt '
         'at a seeded line event inside a call, mutate_snapshot (returned '
-        'result list), mutate_returned (sets inside a query answer), sibling '
+        'result list), mutate_returned (sets inside a query answer), '
+        'mutate_designs (numpy arrays inside returned designs), sibling '
         '(an unrelated object with other data used in between). Every answer '
         'is compared bit-exactly with a freshly built object; the caller\'s '
         'frame, eligibility table and parameter object are compared with '
@@ -57,7 +58,7 @@ MODULES = ('geoeligibility', 'tbrmatchedmarkets', 'tbrmmdata',
            'tbrmmdesignparameters', 'heapdict')
 _UNSET = object()
 FAULT_KINDS = ('rng_jump', 'reject', 'abandon', 'interrupt', 'mutate_snapshot',
-               'mutate_returned', 'sibling')
+               'mutate_returned', 'sibling', 'mutate_designs')
 INTERRUPTIBLE = ('q', 'dwc', 'list_t', 'list_c', 'step', 'exhaustive',
                  'greedy', 'results')
 
@@ -248,6 +249,8 @@ def _gen_ops(rng, tier, profile, n_geos):
         w['abandon'] = 4
       if 'mutate_snapshot' in enabled:
         w['mutate_snapshot'] = 7
+      if 'mutate_designs' in enabled:
+        w['mutate_designs'] = 5
       if 'mutate_returned' in enabled:
         w['mutate_returned'] = 8
       if 'sibling' in enabled:
@@ -264,7 +267,8 @@ def _gen_ops(rng, tier, profile, n_geos):
     kinds = [k for k in w
              if not (k in ('step', 'close', 'abandon') and not open_lids)
              and not (k == 'open' and len(open_lids) >= 3)
-             and not (k == 'mutate_snapshot' and not have_list)
+             and not (k in ('mutate_snapshot', 'mutate_designs')
+                      and not have_list)
              and not (k == 'mutate_returned' and not have_answer)
              and not (k in ('exhaustive', 'greedy') and n_search >= max_searches)]
     kind = rng.choices(kinds, weights=[w[k] for k in kinds])[0]
@@ -808,6 +812,19 @@ def execute(desc):
             last_list.append(None)
           fault('mutate_snapshot')
           state_change = True
+      elif kind == 'mutate_designs':
+        # the caller scribbles into the numpy arrays INSIDE the design objects
+        # it was handed (series, residuals, Brownian-bridge bounds).  The API
+        # hands designs out by reference, so what the stored results look like
+        # afterwards is the caller's business (retrievals are not compared
+        # until the next completed search) -- but no OTHER answer may change.
+        n_written = 0
+        for d in (last_list or []):
+          n_written += _scribble_design(d, np)
+        if n_written:
+          fault('mutate_designs')
+          results_trusted = False
+          state_change = True
       elif kind == 'mutate_returned':
         # the caller treats what a query or listing handed it as its own
         if last_answer is not None:
@@ -1081,6 +1098,31 @@ def execute(desc):
   else:
     nontrivial = n_state_changes >= 2 and compared_after_change >= 1
   return finish(viol, events, absig, nontrivial)
+
+
+def _scribble_design(design, np):
+  """Overwrites every numpy array reachable from a returned design."""
+  n = 0
+  diags = [getattr(design, 'diag', None),
+           getattr(getattr(design, 'score', None), 'diag', None)]
+  for diag in diags:
+    if diag is None:
+      continue
+    arrays = []
+    for name in ('x', 'y', 'pretestfit', 'bbtest', 'aatest', 'dwtest'):
+      try:
+        v = getattr(diag, name)
+      except Exception:  # pylint: disable=broad-except
+        continue
+      vals = list(v) if isinstance(v, tuple) else [v]
+      arrays.extend(a for a in vals if isinstance(a, np.ndarray))
+    for a in arrays:
+      try:
+        a.fill(7)
+        n += 1
+      except Exception:  # pylint: disable=broad-except
+        pass          # read-only arrays: nothing the caller can do
+  return n
 
 
 def _vandalise(answer, how):
